@@ -30,10 +30,14 @@ EXHAUSTIVE = None
 EPS_NS = 50_000_000
 
 
-def gen_pair(rng, seed):
+def gen_pair(rng, seed, long=False):
     N = rng.randint(14, 30)
     topics = rng.choice([['main'], ['main', 'aux']])
     nsync = rng.randint(1, 3)
+    if long:
+        # long run, a slow and a fast synchronized consumer, more messages than the transport buffers (PUB 20 + SUB 1000):
+        # a publisher that stops waiting for the slow one makes it LOSE frames, which a 30-frame run can never show
+        N, topics, nsync = rng.randint(300, 340), ['main', 'aux', 'x', 'y'], 2
 
     def build(with_eph):
         p = Pipe()
@@ -99,6 +103,11 @@ def gen_pair(rng, seed):
     ahead = rng.randrange(len(ephs)) if rng.random() < 0.3 and not bal and ephs[0][0] else None
     if ahead is not None and ephs[ahead][0] != 1:
         ahead = None            # only a '?' listener sends requests
+    if long:
+        period, sync_ms, bal, rejoin, eph_first, ahead = 0, [rng.choice([30, 50]), 0, 0], False, True, rng.random() < 0.85, None
+        sync_forms = ['all', 'all', 'all']
+        if rng.random() < 0.5:
+            sync_ms[0], sync_ms[1] = sync_ms[1], sync_ms[0]      # the joiner is the fast one
     kinds = []
     starts = {f'k{i}': rng.choice([0, 0, 100]) for i in range(3)}
     starts.update({'src': rng.choice([0, 50]) if ahead is None else 2500, 'eb': rng.choice([0, 200]), 'osrc': 0})
@@ -299,6 +308,14 @@ def run_shard(ctx):
             import traceback
             res.inconclusive.append(f'scenario crashed the harness: {type(e).__name__}: {e} {traceback.format_exc()[-500:]}')
             continue
+        if k == 0 or (not ctx.quick and k % 300 == 0):
+            rngl = ctx.rng('long', k)
+            s0, s1, nsync = gen_pair(rngl, rngl.randrange(1 << 30), long=True)
+            try:
+                run_pair(s0, s1, nsync, res)
+                res.count('long_pairs')
+            except Exception as e:
+                res.inconclusive.append(f'long scenario crashed the harness: {type(e).__name__}: {e}')
         if k % 2 == 0:
             scn = gen_eph_safety(rng, rng.randrange(1 << 30))
             try:
